@@ -42,8 +42,8 @@ CLAIMED = {
         ref='DESIGN.md 7 C04'),
     'C05': dict(
         text='(a) Unbounded: the constructors (array/list/tuple, float/int) and every public mutator, run from an arbitrary state, leave values a numeric ndarray on a buffer no caller array shares, len == npts, '
-             'time == dt*[0..npts-1], and write no array argument (alias tracking of the executor: buffers, views, in-place operators). (b) Frame: 57 public array-level functions of sdof, im, displacements, fns.*, stockwell, '
-             'surface, multiple (plus 10 option variants: no / sub-step delays and scalar / per-row reductions of the surface functions, rectangle rule, kept adjacent zeros, tolerance, ...) leave every array/signal argument unchanged and leave a signal argument reporting the velocity/displacement of a fresh object - bounded symbolic (n=4, P=2, all real inputs) with the executor\'s store tracking.',
+             'time == dt*[0..npts-1], and write no array argument (alias tracking of the executor: buffers, views, in-place operators). (b) Frame: 77 public array-level functions of sdof, im, displacements, fns.*, stockwell, '
+             'surface, multiple (plus 12 option variants: no / sub-step delays and scalar / per-row reductions of the surface functions, rectangle rule, kept adjacent zeros, tolerance, ...) leave every array/signal argument unchanged and leave a signal argument reporting the velocity/displacement of a fresh object - bounded symbolic (n=4, P=2, all real inputs) with the executor\'s store tracking.',
         note='Part (b) is bounded, not proved (the alias rule itself is size independent, but the run is at concrete sizes). scipy.fftpack.fft(overwrite_x=True) effect contract: may write x only if x is a complex ndarray (observed on scipy 1.18.1). '
              'Integer-dtype AccSignal in-place baseline corrections raise UFuncTypeError before modifying anything (recorded in DESIGN.md, not a listed clause).',
         ref='DESIGN.md 7 C05'),
